@@ -277,6 +277,82 @@ def report_shrunk(ctx, V, cases):
                               sig=sig, replay=dict(what, fn=fn[kind], shrunk=True, a=c["a"], b=c["b"], k=k, jseed=c["jseed"], id=rid))
 
 
+def call_histories(ctx, arcs1, thorough):
+    """The predicates are functions of values (ArcCalls.tla): TLC proves ValueSemantics for the intended mechanisms, refutes it
+    for a cache keyed by object identity, and emits every history of in-place overwrites and calls of the bounded scope; they
+    are replayed on real, really reused buffers and JudgeCalls.tla validates every call against the current contents."""
+    import json
+    import os
+
+    steps = 3
+    mc = {"ArcCallsMC": X.calls_module()}
+    r = ctx.tlc_ok("ArcCallsMC", X.calls_cfg("none", steps, X.CALL_FORMS, True), extra_modules=mc, workers=8, timeout=3000,
+                   what="ValueSemantics with no cache; emit every history of %d steps (2 buffers, 3 arcs, 7 argument forms)" % steps)
+    hists = [v[1] for v in X.extract_prints(r.out) if v[0] == "H"]
+    if thorough:
+        r4 = ctx.tlc_ok("ArcCallsMC", X.calls_cfg("none", 4, ["buffer", "alias", "copy"], True), extra_modules=mc, workers=8, timeout=3000,
+                        what="ValueSemantics with no cache; emit every history of 4 steps (forms buffer / alias / copy)")
+        hists += [v[1] for v in X.extract_prints(r4.out) if v[0] == "H"]
+    ctx.tlc_ok("ArcCallsMC", X.calls_cfg("by_value", steps, X.CALL_FORMS, False), extra_modules=mc, workers=8, timeout=3000,
+               what="ValueSemantics with a cache keyed by the VALUE of the arc")
+    bad = ctx.tlc("ArcCallsMC", X.calls_cfg("by_identity", steps, X.CALL_FORMS, False), extra_modules=mc, workers=1, timeout=3000, count=False,
+                  what="a cache keyed by the IDENTITY of the array object must be refuted (expected: ValueSemantics violated)")
+    if bad.violated != "ValueSemantics":
+        raise Machinery("TLC did not refute the identity-keyed cache: %r" % bad)
+    if not hists:
+        raise Machinery("ArcCalls emitted no history")
+    by = {(tuple(e["a"]), tuple(e["b"])): e for e in arcs1}
+    cand = []
+    for a, b in X.CALL_POOL:
+        e = by[(tuple(a), tuple(b))]
+        cand.append([[w + 1, X.eval_lat(d)] for w, d in enumerate(e["cand"])])
+    cases = []
+    for n, h in enumerate(hists):
+        stp = [list(t) for t in h]
+        basic = all(t[0] == "O" or t[2] in X.CALL_FORMS_BASIC for t in stp)
+        for fn in ("pw", "ex", "gi", "cl"):
+            if fn == "pw" or basic:
+                cases.append({"id": "H:%s:%d" % (fn, n), "fn": fn, "steps": stp, "cand": cand})
+    X.warm_up()
+    recs = pmap(X.replay_history, cases)
+    path = os.path.join(ctx.work, "calls.ndjson")
+    with open(path, "w") as fh:
+        for rec in recs:
+            fh.write(json.dumps(rec, separators=(",", ":")) + "\n")
+    res = ctx.tlc_ok("JudgeCalls", "INIT Init\nNEXT Next\nINVARIANT Judge\nCHECK_DEADLOCK FALSE\n", env={"REC_FILE": path}, workers=8,
+                     count=False, timeout=3000, what="validate %d recorded call histories against the value-level answers" % len(recs))
+    os.remove(path)
+    pr = X.extract_prints(res.out)
+    S = [v for v in pr if v[0] == "S"]
+    if len(S) != len(recs):
+        raise Machinery("JudgeCalls answered %d of %d histories" % (len(S), len(recs)))
+    judged = Counter()
+    for _, _, fn, nj, nskip in S:
+        judged[fn] += nj
+    for fn in ("pw", "ex", "gi", "cl"):
+        if judged[fn] == 0:
+            raise Machinery("vacuous: no call of %s judged in the histories" % fn)
+    names = {"pw": "point_within_gca", "ex": "extreme_gca_latitude", "gi": "gca_gca_intersection", "cl": "gca_const_lat_intersection"}
+    byid = {c["id"]: c for c in cases}
+    for v in pr:
+        if v[0] != "V":
+            continue
+        _, rid, fn, bad_steps = v
+        c = byid[rid]
+        txt = ";".join("%s%d:%s" % (t[0], t[1], t[2]) + (":%d" % t[3] if t[0] == "C" else "") for t in c["steps"])
+        for clause in sorted({cl for cl, _ in bad_steps}):
+            ctx.violation("H/%s/%s" % (fn, txt), clause, detail={"failed_steps": sorted(bad_steps), "steps": c["steps"], "pool": X.CALL_POOL,
+                                                                  "args": X.CALL_ARGS[fn]},
+                          sig={"fn": names[fn], "keyed": False, "family": "call-history", "replay_group": "history"},
+                          replay={"fn": names[fn], "history": True, "steps": c["steps"], "code": fn})
+    ctx.traces += sum(judged.values())
+    ctx.evaluations += sum(judged.values())
+    for c in cases:
+        ctx.nontrivial.add(c["id"])
+    ctx.note("call_histories", {"histories": len(hists), "replayed(history x function)": len(cases), "calls_judged": dict(judged),
+                                "identity_keyed_cache_refuted_by_TLC_in_steps": bad.depth})
+
+
 def run(ctx):
     rng = random.Random(ctx.seed)
     thorough = ctx.tier == "thorough"
@@ -417,6 +493,7 @@ def run(ctx):
     report_pairs(ctx, [v for v in V if v[2] == "X"], x_cases, keyed_K, K_of)
     report_lat(ctx, [v for v in V if v[2] == "L"], l_cases, keyed_K, K_of)
     report_shrunk(ctx, [v for v in V if v[2] in ("SM", "SX", "SL")], s_cases)
+    call_histories(ctx, arcs1, thorough)
 
     ctx.exhaustive = True
     ctx.rule = (
@@ -461,10 +538,16 @@ def replay(path):
         data = json.load(fh)
     ctx = core.Ctx(PROP, "replay", 0)
     try:
-        m_cases, x_cases, l_cases, s_cases = [], [], [], []
+        m_cases, x_cases, l_cases, s_cases, h_cases = [], [], [], [], []
+        failed_any = False
         for n, v in enumerate(data.get("cases", [])):
             r = v["replay"]
-            if r.get("shrunk"):
+            if r.get("history"):
+                if r["code"] == "ex":
+                    print("not replayed individually (needs TLC's latitude descriptors; re-run the tier): %s" % v["key"])
+                    continue
+                h_cases.append({"id": "H:%s:%d" % (r["code"], n), "fn": r["code"], "steps": r["steps"], "cand": [], "key": v["key"]})
+            elif r.get("shrunk"):
                 # shrunk-arc cases: same arcs, same exact variants; the jitter replay is re-seeded (index within the record differs)
                 sid = "%s:%d" % (r["id"].split(":")[0], n)
                 K = int(r["id"].split(":")[1][1:])
@@ -490,6 +573,23 @@ def replay(path):
         recs = [X.replay_member(c) for c in m_cases] + [X.replay_lat(c) for c in l_cases] + [X.replay_pairs(c) for c in x_cases]
         recs += [{"sm": X.replay_sm, "sx": X.replay_sx, "sl": X.replay_sl}[t](c) for t, c in s_cases]
         V, _, _ = X.judge(ctx, recs, "re-judge %d replayed cases" % len(recs))
+        if h_cases:
+            import os
+
+            hrecs = [X.replay_history(c) for c in h_cases]
+            hp = os.path.join(ctx.work, "calls.ndjson")
+            with open(hp, "w") as fh:
+                for rec in hrecs:
+                    fh.write(json.dumps(rec, separators=(",", ":")) + "\n")
+            hres = ctx.tlc_ok("JudgeCalls", "INIT Init\nNEXT Next\nINVARIANT Judge\nCHECK_DEADLOCK FALSE\n", env={"REC_FILE": hp}, count=False,
+                              what="re-judge %d call histories" % len(hrecs))
+            hbad = {v[1]: sorted(v[3]) for v in X.extract_prints(hres.out) if v[0] == "V"}
+            for c, rec in zip(h_cases, hrecs):
+                print("%s  %s  answers per step=%s" % ("FAILS" if c["id"] in hbad else "holds", c["key"], json.dumps(rec["r"])))
+                if c["id"] in hbad:
+                    print("    failed (clause, step): %s" % hbad[c["id"]])
+            if hbad:
+                failed_any = True
         keys = {c["id"]: c["key"] for c in m_cases + x_cases + l_cases + [c for _, c in s_cases]}
         bad = {}
         for v in V:
@@ -500,7 +600,7 @@ def replay(path):
             print("%s  %s  impl(per variant)=%s" % ("FAILS" if rec["id"] in bad else "holds", keys[rec["id"]], json.dumps(shown)[:200]))
             if rec["id"] in bad:
                 print("    failed clauses (clause, variant): %s" % bad[rec["id"]])
-        return 1 if bad else 0
+        return 1 if (bad or failed_any) else 0
     finally:
         import shutil
 
